@@ -7,6 +7,7 @@ package parsley
 //@ import "errors"
 //@ import "fmt"
 //@ import "sort"
+//@ import "regexp"
 //@ import "github.com/opsidian/parsley/data"
 
 //@ -- ---------------------------------------------------------------- errors
@@ -142,3 +143,139 @@ package parsley
 //@   ensures  r != nil
 //@   ensures  [unknown] (e.Pos() == 0 || int(e.Pos()) >= fs.pos) ==> same(r, e)
 //@   assigns  fields[File]()
+
+//@ -- -------------------------------------------------- context, cache, Parser
+//@ props C03,C04,C06,C07,C14
+
+//@ -- ghost state of one parse (only contracts mention it)
+//@ ghost GhostCurtailed bool
+//@ ghost GhostMaxFail Pos
+//@ ghost GhostCalls int
+//@ ghost GhostFloorPos Pos
+//@ ghost GhostFloorLrc data.IntMap
+//@ -- the window [GhostLo, GhostHi] of the innermost active parser: its start position and the end of input
+//@ ghost GhostLo Pos
+//@ ghost GhostHi Pos
+
+//@ -- spec-level views of interface values, defined per concrete type by `specmethod` (heap-versioned)
+//@ virtual func ReaderOK(r Reader) bool
+//@ virtual func NodeOK(n Node) bool
+//@ virtual func ListSpare(n Node) int
+//@ virtual func ListArr(n Node) int
+//@ virtual func EndsWithin(n Node, lo Pos, hi Pos) bool
+
+//@ interface parsley.Reader.Pos(r Reader, cur int) (p Pos)
+//@   requires r != nil && ReaderOK(r) && 0 <= cur && cur <= r.Remaining(r.Pos(0))
+//@   ensures  p == r.Pos(cur)
+//@   assigns  nothing
+//@ interface parsley.Reader.Remaining(r Reader, pos Pos) (n int)
+//@   requires r != nil && ReaderOK(r) && InInput(r, pos)
+//@   ensures  n == r.Remaining(pos) && n >= 0
+//@   assigns  nothing
+//@ interface parsley.Reader.IsEOF(r Reader, pos Pos) (b bool)
+//@   requires r != nil && ReaderOK(r) && InInput(r, pos)
+//@   ensures  b == r.IsEOF(pos) && b == (r.Remaining(pos) == 0)
+//@   assigns  nothing
+
+//@ pure func InInput(r Reader, pos Pos) bool = r.Pos(0) <= pos && r.Remaining(pos) >= 0
+//@ pure func WfCtx(ctx *Context) bool = ctx != nil && ctx.reader != nil && ReaderOK(ctx.reader) && ctx.resultCache != nil && ctx.keywords != nil && (ctx.err != nil ==> ctx.err.Pos() <= GhostMaxFail)
+
+//@ method (c *Context) FileSet() (r *FileSet) = c.fileSet
+//@ method (c *Context) Reader() (r Reader) = c.reader
+//@ method (c *Context) ResultCache() (r ResultCache) = c.resultCache
+//@ method (c *Context) CallCount() (r int) = c.callCount
+//@ method (c *Context) Error() (r Error) = c.err
+//@ method (c *Context) TransformationEnabled() (r bool) = c.transformationEnabled
+//@ method (c *Context) StaticCheckEnabled() (r bool) = c.staticCheckEnabled
+//@ method (c *Context) UserContext() (r interface{}) = c.userCtx
+
+//@ func (c *Context) RegisterCall()
+//@   requires c != nil
+//@   ensures  c.callCount == old(c.callCount) + 1 || c.callCount == -9223372036854775808
+//@   flag arith_mathematical
+//@   assigns  c.callCount
+
+//@ func (c *Context) SetError(e Error)
+//@   requires c != nil
+//@   ensures  [keep] e == nil ==> same(c.err, old(c.err))
+//@   ensures  [max] e != nil ==> same(c.err, ite(old(c.err) == nil || e.Pos() >= old(c.err).Pos(), e, old(c.err)))
+//@   assigns  c.err
+
+//@ func NewResultCache() (rc ResultCache)
+//@   ensures rc != nil && fresh(rc) && forall k int :: !dom(rc, k)
+//@   assigns nothing
+
+//@ func NewContext(fileSet *FileSet, reader Reader) (c *Context)
+//@   ensures fresh(c) && c.fileSet == fileSet && same(c.reader, reader) && c.resultCache != nil && c.err == nil && c.callCount == 0 && c.keywords != nil
+//@   ensures !c.transformationEnabled && !c.staticCheckEnabled && c.userCtx == nil
+//@   assigns nothing
+
+//@ -- result cache: abstract view is rc[idx][pos] (nil when absent); entries are never nil
+//@ pure func WfCacheShape(rc ResultCache) bool = rc != nil && (forall i int :: dom(rc, i) ==> rc[i] != nil) && (forall i int, p Pos :: dom(rc, i) && dom(rc[i], p) ==> rc[i][p] != nil) && (forall i, j int :: i != j && dom(rc, i) && dom(rc, j) ==> !same(rc[i], rc[j]))
+
+//@ func (rc ResultCache) Save(idx int, pos Pos, res *Result)
+//@   requires WfCacheShape(rc) && res != nil
+//@   ensures  WfCacheShape(rc)
+//@   ensures  [stored] rc[idx][pos] == res
+//@   ensures  [others] forall i int, p Pos :: (i != idx || p != pos) ==> rc[i][p] == old(rc[i][p])
+//@   assigns  maps[ResultCache](), maps[map[Pos]*Result]()
+
+//@ func (rc ResultCache) Get(idx int, pos Pos, lrc data.IntMap) (r *Result, found bool)
+//@   requires WfCacheShape(rc)
+//@   let st = rc[idx][pos]
+//@   ensures  [reuse;C01,C03] found == (st != nil && forall k int :: dom(data.MapOf(st.LeftRecCtx), k) ==> data.MapOf(st.LeftRecCtx)[k] <= data.MapOf(lrc)[k])
+//@   ensures  [value;C03] (found ==> r == st) && (!found ==> r == nil)
+//@   assigns  nothing
+//@ loop 1 (n rangeindex, keys []int)
+//@   invariant 0 <= n && n <= len(keys)
+//@   invariant forall j int :: 0 <= j && j < n ==> data.MapOf(st.LeftRecCtx)[keys[j]] <= data.MapOf(lrc)[keys[j]]
+
+//@ -- ------------------------------------------------- nodes and the Parser contract
+//@ interface parsley.Node.Token(n Node) (r string)
+//@   requires n != nil && NodeOK(n)
+//@   ensures  r == n.Token()
+//@   assigns  nothing
+//@ interface parsley.Node.Pos(n Node) (r Pos)
+//@   requires n != nil && NodeOK(n)
+//@   ensures  r == n.Pos()
+//@   assigns  nothing
+//@ interface parsley.Node.ReaderPos(n Node) (r Pos)
+//@   requires n != nil && NodeOK(n)
+//@   ensures  r == n.ReaderPos()
+//@   assigns  nothing
+//@ interface parsley.Node.Schema(n Node) (r interface{})
+//@   requires n != nil && NodeOK(n)
+//@   ensures  r == n.Schema()
+//@   assigns  nothing
+
+//@ pure func Eof(r Reader, pos Pos) Pos = pos + Pos(r.Remaining(pos))
+
+//@ -- cache invariant: every stored result satisfies, for its own position, what the Parser contract
+//@ -- promises of a returned result (so that a cache hit may be returned as is)
+//@ pure func StoredOK(ctx *Context, res *Result, pos Pos) bool = res != nil && data.Inv(res.CurtailingParsers) && (res.Node != nil ==> NodeOK(res.Node) && ListSpare(res.Node) == 0 && EndsWithin(res.Node, pos, Eof(ctx.reader, pos))) && (res.Error != nil ==> pos <= res.Error.Pos() && res.Error.Pos() <= Eof(ctx.reader, pos) && res.Error.Pos() <= GhostMaxFail) && (res.Node == nil && res.Error == nil ==> GhostCurtailed)
+//@ pure func WfCache(ctx *Context) bool = WfCacheShape(ctx.resultCache) && forall i int, p Pos :: ctx.resultCache[i][p] != nil ==> InInput(ctx.reader, p) && StoredOK(ctx, ctx.resultCache[i][p], p)
+
+//@ -- PC: what every Parser promises and may rely on
+//@ interface parsley.Parser.Parse(p Parser, ctx *Context, lrc data.IntMap, pos Pos) (n Node, cp data.IntSet, err Error)
+//@   requires [ctx] WfCtx(ctx) && WfCache(ctx) && InInput(ctx.reader, pos)
+//@   requires [floor;C02] pos > GhostFloorPos || (pos == GhostFloorPos && forall k int :: data.MapOf(lrc)[k] >= data.MapOf(GhostFloorLrc)[k])
+//@   ensures  [ctx] WfCtx(ctx) && WfCache(ctx)
+//@   ensures  [PC1;C04] n == nil && err == nil ==> GhostCurtailed
+//@   ensures  [PC2;C07] n != nil ==> NodeOK(n) && (ListSpare(n) == 0 || freshid(ListArr(n)))
+//@   ensures  [PC3;C02] n != nil ==> EndsWithin(n, pos, Eof(ctx.reader, pos))
+//@   ensures  [PC3e;C08] err != nil ==> pos <= err.Pos() && err.Pos() <= Eof(ctx.reader, pos)
+//@   ensures  [cp] data.Inv(cp)
+//@   ensures  [PC6;C06] err != nil ==> err.Pos() <= GhostMaxFail
+//@   ensures  [mono] (old(GhostCurtailed) ==> GhostCurtailed) && GhostMaxFail >= old(GhostMaxFail) && GhostCalls > old(GhostCalls)
+//@   ensures  [floor;C02] GhostFloorPos == old(GhostFloorPos) && same(GhostFloorLrc, old(GhostFloorLrc))
+//@   assigns  ctx.err, ctx.callCount, maps[ResultCache](), maps[map[Pos]*Result](), maps[map[string]*regexp.Regexp](), GhostCurtailed, GhostMaxFail, GhostCalls, GhostFloorPos, GhostFloorLrc, GhostLo, GhostHi
+//@   ensures  [window] GhostLo == old(GhostLo) && GhostHi == old(GhostHi)
+//@   ghost_entry GhostLo = pos
+//@   ghost_entry GhostHi = Eof(ctx.reader, pos)
+//@   ghost_return GhostLo = old(GhostLo)
+//@   ghost_return GhostHi = old(GhostHi)
+//@   ghost_entry GhostCalls = GhostCalls + 1
+//@   ghost_entry GhostFloorPos = pos
+//@   ghost_entry GhostFloorLrc = lrc
+//@   ghost_return GhostFloorPos = old(GhostFloorPos)
+//@   ghost_return GhostFloorLrc = old(GhostFloorLrc)
